@@ -631,6 +631,7 @@ pub fn all_templates(seed: u64, quick: bool) -> Vec<Tpl> {
     v.extend(size_limits(quick));
     v.extend(fixed());
     v.extend(d21_regressions());
+    v.extend(pending_cases(quick).into_iter().map(|c| c.tpl));
     v
 }
 
@@ -700,4 +701,409 @@ pub fn run_templates(ctx: &mut Ctx, prop: &str) {
             }
         }
     }
+}
+
+// ================================================================================================
+// pending-operand family (fix 0c43abd, seed C01-r3): a jump-carrying block `{ if c { break|continue } else { }; v }`
+// as the operand of EVERY construct in which values wait on the operand stack (or are pushed / consumed by hand by the
+// translator), at every value type the construct admits, inside `while`, `for` over an array and `for` over a range,
+// the whole loop nested in a further operand (`100 + { loop; acc }`) so that a leaked or over-popped slot changes the
+// printed value.  One mini AST, three renderings: Abra source, the S-expression of the Lean model `Abra.Pending`
+// (`pending …`: the number of Pops of every break/continue) and — through `contrib` — the expected output.
+// ================================================================================================
+#[derive(Clone, Debug)]
+pub enum PX {
+    /// (yields a value, source text) — no sub-expression that can jump
+    Leaf(bool, String),
+    /// the jump block of the program under construction: (yields a value, text of its value)
+    Jump(bool, String),
+    /// a jump block with its own condition: (condition, break?, yields a value, text of its value)
+    JumpC(String, bool, bool, String),
+    /// operands in EVALUATION order; the format places them (`{0}`, `{1}`, …)
+    Seq(bool, &'static str, Vec<PX>),
+    Pre(usize, bool, &'static str, Box<PX>),
+    Un(bool, &'static str, Box<PX>),
+    If(bool, Box<PX>, Box<PX>, Box<PX>),
+    OrAnd(&'static str, Box<PX>, Box<PX>),
+    Match(bool, Box<PX>, Vec<(&'static str, PX)>),
+    Block(bool, Vec<PS>),
+    /// `(() -> body)`
+    Fn(Box<PX>),
+}
+#[derive(Clone, Debug)]
+pub enum PS {
+    Expr(PX),
+    /// (mutable, name, initialiser)
+    Let(bool, &'static str, PX),
+    Assign(&'static str, PX),
+    Compound(&'static str, &'static str, PX),
+    /// (object, field, right-hand side)
+    AssignField(PX, &'static str, PX),
+    CompoundField(PX, &'static str, &'static str, PX),
+    AssignIndex(PX, PX, PX),
+    CompoundIndex(PX, PX, &'static str, PX),
+    While(PX, Vec<PS>),
+    For(&'static str, PX, Vec<PS>),
+    Break,
+    Continue,
+}
+
+fn leaf(s: &str) -> PX {
+    PX::Leaf(true, s.to_string())
+}
+fn nil() -> PX {
+    PX::Leaf(false, "nil".to_string())
+}
+fn jv(s: &str) -> PX {
+    PX::Jump(true, s.to_string())
+}
+fn seq(fmt: &'static str, args: Vec<PX>) -> PX {
+    PX::Seq(true, fmt, args)
+}
+fn bx(p: PX) -> Box<PX> {
+    Box::new(p)
+}
+fn ite(c: PX, t: PX, f: PX) -> PX {
+    PX::If(true, bx(c), bx(t), bx(f))
+}
+/// a float made observable as an int: `x < 3.0` picks 7, otherwise 9
+fn fcmp(x: PX) -> PX {
+    ite(seq("({0} < 3.0)", vec![x]), leaf("7"), leaf("9"))
+}
+
+struct JumpSpec {
+    cond: &'static str,
+    brk: bool,
+}
+
+fn px_src(e: &PX, j: &JumpSpec, lvl: usize) -> String {
+    let ind = "  ".repeat(lvl);
+    let jump_block = |cond: &str, brk: bool, val: &str| {
+        format!("{{\n{ind}  if {cond} {{\n{ind}    {}\n{ind}  }} else {{ }}\n{ind}  {val}\n{ind}}}", if brk { "break" } else { "continue" })
+    };
+    match e {
+        PX::Leaf(_, s) => s.clone(),
+        PX::Jump(_, v) => jump_block(j.cond, j.brk, v),
+        PX::JumpC(c, b, _, v) => jump_block(c, *b, v),
+        PX::Seq(_, fmt, args) => {
+            let mut s = fmt.to_string();
+            for (k, a) in args.iter().enumerate() {
+                s = s.replace(&format!("{{{k}}}"), &px_src(a, j, lvl));
+            }
+            s
+        }
+        PX::Pre(_, _, fmt, a) | PX::Un(_, fmt, a) => fmt.replace("{0}", &px_src(a, j, lvl)),
+        PX::If(_, c, t, f) => format!("(if {} {{\n{ind}  {}\n{ind}}} else {{\n{ind}  {}\n{ind}}})", px_src(c, j, lvl), px_src(t, j, lvl + 1), px_src(f, j, lvl + 1)),
+        PX::OrAnd(op, a, b) => format!("({} {op} {})", px_src(a, j, lvl), px_src(b, j, lvl)),
+        PX::Match(_, s, arms) => {
+            let mut o = format!("(match {} {{\n", px_src(s, j, lvl));
+            for (p, b) in arms {
+                o.push_str(&format!("{ind}  {p} -> {}\n", px_src(b, j, lvl + 1)));
+            }
+            o.push_str(&format!("{ind}}})"));
+            o
+        }
+        PX::Block(_, ss) => format!("{{\n{}{ind}}}", ss.iter().map(|s| ps_src(s, j, lvl + 1)).collect::<String>()),
+        PX::Fn(b) => format!("(() -> {})", px_src(b, j, lvl)),
+    }
+}
+
+fn ps_src(s: &PS, j: &JumpSpec, lvl: usize) -> String {
+    let ind = "  ".repeat(lvl);
+    let body = |ss: &[PS]| ss.iter().map(|s| ps_src(s, j, lvl + 1)).collect::<String>();
+    match s {
+        PS::Expr(e) => format!("{ind}{}\n", px_src(e, j, lvl)),
+        PS::Let(m, x, e) => format!("{ind}{} {x} = {}\n", if *m { "var" } else { "let" }, px_src(e, j, lvl)),
+        PS::Assign(x, e) => format!("{ind}{x} = {}\n", px_src(e, j, lvl)),
+        PS::Compound(x, op, e) => format!("{ind}{x} {op} {}\n", px_src(e, j, lvl)),
+        PS::AssignField(o, f, e) => format!("{ind}{}.{f} = {}\n", px_src(o, j, lvl), px_src(e, j, lvl)),
+        PS::CompoundField(o, f, op, e) => format!("{ind}{}.{f} {op} {}\n", px_src(o, j, lvl), px_src(e, j, lvl)),
+        PS::AssignIndex(a, i, e) => format!("{ind}{}[{}] = {}\n", px_src(a, j, lvl), px_src(i, j, lvl), px_src(e, j, lvl)),
+        PS::CompoundIndex(a, i, op, e) => format!("{ind}{}[{}] {op} {}\n", px_src(a, j, lvl), px_src(i, j, lvl), px_src(e, j, lvl)),
+        PS::While(c, b) => format!("{ind}while {} {{\n{}{ind}}}\n", px_src(c, j, lvl), body(b)),
+        PS::For(p, it, b) => format!("{ind}for {p} in {} {{\n{}{ind}}}\n", px_src(it, j, lvl), body(b)),
+        PS::Break => format!("{ind}break\n"),
+        PS::Continue => format!("{ind}continue\n"),
+    }
+}
+
+fn px_valued(e: &PX) -> bool {
+    match e {
+        PX::Leaf(v, _) | PX::Jump(v, _) | PX::JumpC(_, _, v, _) | PX::Seq(v, _, _) | PX::Pre(_, v, _, _) | PX::Un(v, _, _) | PX::If(v, ..) | PX::Match(v, ..) | PX::Block(v, _) => *v,
+        PX::OrAnd(..) | PX::Fn(_) => true,
+    }
+}
+
+fn px_sx(e: &PX, j: &JumpSpec) -> String {
+    let b = |v: bool| if v { 1 } else { 0 };
+    let jump = |brk: bool, v: bool| {
+        format!("( block {} ( expr ( if 0 ( leaf 1 ) ( block 0 ( {} ) ) ( block 0 ) ) ) ( expr ( leaf {} ) ) )", b(v), if brk { "break" } else { "continue" }, b(v))
+    };
+    match e {
+        PX::Leaf(v, _) => format!("( leaf {} )", b(*v)),
+        PX::Jump(v, _) => jump(j.brk, *v),
+        PX::JumpC(_, brk, v, _) => jump(*brk, *v),
+        PX::Seq(v, _, args) => format!("( seq {} {} )", b(*v), args.iter().map(|a| px_sx(a, j)).collect::<Vec<_>>().join(" ")),
+        PX::Pre(n, v, _, a) => format!("( pre {n} {} {} )", b(*v), px_sx(a, j)),
+        PX::Un(v, _, a) => format!("( un {} {} )", b(*v), px_sx(a, j)),
+        PX::If(v, c, t, f) => format!("( if {} {} {} {} )", b(*v), px_sx(c, j), px_sx(t, j), px_sx(f, j)),
+        PX::OrAnd(_, x, y) => format!("( orand {} {} )", px_sx(x, j), px_sx(y, j)),
+        PX::Match(v, s, arms) => format!("( match {} {} {} )", b(*v), px_sx(s, j), arms.iter().map(|(_, a)| px_sx(a, j)).collect::<Vec<_>>().join(" ")),
+        PX::Block(v, ss) => format!("( block {} {} )", b(*v), ss.iter().map(|s| ps_sx(s, j)).collect::<Vec<_>>().join(" ")),
+        PX::Fn(body) => format!("( fn {} )", px_sx(body, j)),
+    }
+}
+
+fn ps_sx(s: &PS, j: &JumpSpec) -> String {
+    let body = |ss: &[PS]| ss.iter().map(|s| ps_sx(s, j)).collect::<Vec<_>>().join(" ");
+    match s {
+        PS::Expr(e) => format!("( expr {} )", px_sx(e, j)),
+        PS::Let(_, _, e) => format!("( let {} )", px_sx(e, j)),
+        PS::Assign(_, e) => format!("( assign {} )", px_sx(e, j)),
+        PS::Compound(_, _, e) => format!("( compound {} )", px_sx(e, j)),
+        PS::AssignField(o, _, e) => format!("( assignf {} {} )", px_sx(e, j), px_sx(o, j)),
+        PS::CompoundField(o, _, _, e) => format!("( compoundf {} {} )", px_sx(o, j), px_sx(e, j)),
+        PS::AssignIndex(a, i, e) => format!("( assigni {} {} {} )", px_sx(a, j), px_sx(i, j), px_sx(e, j)),
+        PS::CompoundIndex(a, i, _, e) => format!("( compoundi {} {} {} )", px_sx(a, j), px_sx(i, j), px_sx(e, j)),
+        PS::While(c, b) => format!("( while {} {} )", px_sx(c, j), body(b)),
+        PS::For(_, it, b) => format!("( for {} {} )", px_sx(it, j), body(b)),
+        PS::Break => "( break )".into(),
+        PS::Continue => "( continue )".into(),
+    }
+}
+
+const PENDING_DECLS: &str = "fn add3(a: int, b: int, c: int) -> int {\n  a + b + c\n}\nfn g2(a: int, u: void, b: int) -> int {\n  a * 2 + b\n}\nfn fadd(a: float, b: float) -> float {\n  a + b\n}\nfn twice(a: int) -> int {\n  a * 2\n}\n\
+type Pq = {\n  a: int\n  z: void\n  b: int\n}\ntype Vq = Aa(int, int) | Bb\ntype Bx = {\n  q: int\n}\nextend Bx {\n  fn plus(self, k: int) -> int {\n    self.q + k\n  }\n}\n\
+type Gd = {\n  cells: array<int>\n}\nimplement Index for Gd {\n  fn index_get(self, idx: int) -> int {\n    self.cells[idx]\n  }\n  fn index_set(self, idx: int, val: int) -> void {\n    self.cells[idx] = val\n  }\n}\nlet fs = [twice, twice]\n";
+
+/// (name, expression of type int built around the jump block, its value in iteration i when the jump is not taken)
+pub fn pending_contexts() -> Vec<(&'static str, PX, fn(i64) -> i64)> {
+    let i = || leaf("i");
+    let blk = |ss: Vec<PS>| PX::Block(true, ss);
+    let arr = || leaf("[1, 2, 3]");
+    // an inner loop whose own `continue` (at q == 6) runs with `q` pending: 5+1 + 7+1
+    let inner = || {
+        blk(vec![
+            PS::Let(true, "s", leaf("0")),
+            PS::For("q", leaf("[5, 6, 7]"), vec![PS::Compound("s", "+=", seq("({0} + {1})", vec![leaf("q"), PX::JumpC("q == 6".into(), false, true, "1".into())]))]),
+            PS::Expr(leaf("s")),
+        ])
+    };
+    let mut v: Vec<(&'static str, PX, fn(i64) -> i64)> = vec![
+        // ---- binary operators at every operand type
+        ("bin-right-int", seq("({0} + {1})", vec![i(), jv("10")]), |i| i + 10),
+        ("bin-left-int", seq("({0} - {1})", vec![jv("10"), i()]), |i| 10 - i),
+        ("bin-right-float", fcmp(seq("({0} + {1})", vec![leaf("0.5"), jv("1.5")])), |_| 7),
+        ("bin-right-cmp", ite(seq("({0} < {1})", vec![i(), jv("10")]), leaf("3"), leaf("4")), |_| 3),
+        ("bin-right-eq-string", ite(seq("({0} == {1})", vec![leaf("\"s\""), jv("\"s\"")]), leaf("3"), leaf("4")), |_| 3),
+        ("bin-right-eq-bool", ite(seq("({0} == {1})", vec![leaf("true"), jv("false")]), leaf("3"), leaf("4")), |_| 4),
+        ("concat-middle", ite(seq("({0} == \"as1\")", vec![seq("({0} .. {1})", vec![seq("({0} .. {1})", vec![leaf("\"a\""), jv("\"s\"")]), leaf("1")])]), leaf("3"), leaf("4")), |_| 3),
+        // ---- the constant pushed by hand for unary minus: int AND float
+        ("neg-int", PX::Pre(1, true, "-{0}", bx(jv("10"))), |_| -10),
+        ("neg-float", fcmp(PX::Pre(1, true, "-{0}", bx(jv("1.5")))), |_| 7),
+        ("neg-float-nested", fcmp(seq("({0} + {1})", vec![leaf("0.25"), PX::Pre(1, true, "-{0}", bx(PX::Pre(1, true, "-{0}", bx(jv("1.5")))))])), |_| 7),
+        ("not", ite(PX::Un(true, "not {0}", bx(jv("true"))), leaf("3"), leaf("4")), |_| 4),
+        // ---- conditions and short-circuit operators (the conditional jump consumes the operand)
+        ("if-cond", ite(jv("true"), i(), leaf("0")), |i| i),
+        ("if-branch", ite(leaf("i > 0"), jv("10"), leaf("0")), |_| 10),
+        ("or-left", ite(PX::OrAnd("or", bx(jv("false")), bx(leaf("i > 100"))), leaf("1"), leaf("2")), |_| 2),
+        ("or-right", ite(PX::OrAnd("or", bx(leaf("i > 100")), bx(jv("true"))), leaf("1"), leaf("2")), |_| 1),
+        ("and-left", ite(PX::OrAnd("and", bx(jv("true")), bx(leaf("i > 100"))), leaf("1"), leaf("2")), |_| 2),
+        ("and-right", ite(PX::OrAnd("and", bx(leaf("i < 100")), bx(jv("true"))), leaf("1"), leaf("2")), |_| 1),
+        // ---- match: scrutinee at every pattern type, arms
+        ("match-scrutinee-int", PX::Match(true, bx(jv("10")), vec![("10", leaf("5")), ("_", leaf("6"))]), |_| 5),
+        ("match-scrutinee-string", PX::Match(true, bx(jv("\"s\"")), vec![("\"t\"", leaf("5")), ("_", leaf("6"))]), |_| 6),
+        ("match-scrutinee-bool", PX::Match(true, bx(jv("true")), vec![("true", leaf("5")), ("false", leaf("6"))]), |_| 5),
+        ("match-scrutinee-tuple", PX::Match(true, bx(seq("({0}, {1})", vec![i(), jv("10")])), vec![("(1, _)", leaf("1")), ("(_, k)", leaf("k"))]), |i| if i == 1 { 1 } else { 10 }),
+        ("match-arm", PX::Match(true, bx(i()), vec![("1", jv("10")), ("_", jv("20"))]), |i| if i == 1 { 10 } else { 20 }),
+        ("match-as-right-operand", seq("({0} + {1})", vec![i(), PX::Match(true, bx(jv("10")), vec![("10", jv("5")), ("_", leaf("6"))])]), |i| i + 5),
+        // ---- calls: arguments (void ones take no slot), receiver, callee out of an index expression
+        ("call-arg-first", seq("add3({0}, {1}, {2})", vec![jv("10"), i(), leaf("100")]), |i| i + 110),
+        ("call-arg-middle", seq("add3({0}, {1}, {2})", vec![i(), jv("10"), leaf("100")]), |i| i + 110),
+        ("call-arg-last", seq("add3({0}, {1}, {2})", vec![i(), leaf("100"), jv("10")]), |i| i + 110),
+        ("call-arg-after-void", seq("g2({0}, {1}, {2})", vec![i(), nil(), jv("10")]), |i| 2 * i + 10),
+        ("call-arg-float", fcmp(seq("fadd({0}, {1})", vec![leaf("0.5"), jv("1.5")])), |_| 7),
+        ("method-argument", seq("{0}.plus({1})", vec![leaf("Bx(i)"), jv("10")]), |i| i + 10),
+        ("method-receiver", seq("{0}.plus({1})", vec![jv("Bx(7)"), i()]), |i| i + 7),
+        ("function-value-argument", seq("{1}({0})", vec![jv("10"), leaf("[twice, twice][0]")]), |_| 20),
+        ("function-value-callee-index", seq("{1}({0})", vec![i(), seq("{0}[{1}]", vec![leaf("[twice, twice]"), jv("0")])]), |i| 2 * i),
+        // ---- constructors
+        ("tuple-component-after-void", PX::Match(true, bx(seq("({0}, {1}, {2})", vec![i(), nil(), jv("10")])), vec![("(a, _, b)", leaf("a + b"))]), |i| i + 10),
+        ("array-element", seq("{0}[{1}]", vec![seq("[{0}, {1}]", vec![i(), jv("10")]), leaf("1")]), |_| 10),
+        ("struct-field-after-void", PX::Un(true, "{0}.b", bx(seq("Pq({0}, {1}, {2})", vec![i(), nil(), jv("10")]))), |_| 10),
+        ("variant-payload", PX::Match(true, bx(seq("Vq.Aa({0}, {1})", vec![i(), jv("10")])), vec![(".Aa(a, b)", leaf("a + b")), (".Bb", leaf("0"))]), |i| i + 10),
+        ("unwrap-operand", PX::Un(true, "{0}!", bx(seq("option.some({0})", vec![jv("10")]))), |_| 10),
+        ("index-read-index", seq("{0}[{1}]", vec![leaf("[5, 6, 7]"), jv("1")]), |_| 6),
+        ("index-read-array", seq("{0}[{1}]", vec![jv("[5, 6, 7]"), leaf("2")]), |_| 7),
+        // ---- statements inside a block operand
+        ("let-initialiser", blk(vec![PS::Let(false, "t", jv("10")), PS::Expr(leaf("t"))]), |_| 10),
+        ("assignment", blk(vec![PS::Let(true, "t", leaf("0")), PS::Assign("t", jv("10")), PS::Expr(leaf("t"))]), |_| 10),
+        ("expression-statement", blk(vec![PS::Expr(jv("10")), PS::Expr(i())]), |i| i),
+        ("compound-var-int", blk(vec![PS::Let(true, "t", i()), PS::Compound("t", "+=", jv("10")), PS::Expr(leaf("t"))]), |i| i + 10),
+        ("compound-var-int-mul", blk(vec![PS::Let(true, "t", i()), PS::Compound("t", "*=", jv("10")), PS::Expr(leaf("t"))]), |i| i * 10),
+        ("compound-var-float", blk(vec![PS::Let(true, "t", leaf("0.5")), PS::Compound("t", "+=", jv("1.5")), PS::Expr(fcmp(leaf("t")))]), |_| 7),
+        ("compound-index-rhs", blk(vec![PS::Let(false, "a", arr()), PS::CompoundIndex(leaf("a"), leaf("0"), "+=", jv("10")), PS::Expr(leaf("a[0]"))]), |_| 11),
+        ("compound-index-index", blk(vec![PS::Let(false, "a", arr()), PS::CompoundIndex(leaf("a"), jv("0"), "+=", i()), PS::Expr(leaf("a[0]"))]), |i| 1 + i),
+        ("compound-index-array", blk(vec![PS::Let(false, "a", arr()), PS::CompoundIndex(jv("a"), leaf("0"), "+=", i()), PS::Expr(leaf("a[0]"))]), |i| 1 + i),
+        ("assign-index-rhs", blk(vec![PS::Let(false, "a", arr()), PS::AssignIndex(leaf("a"), leaf("0"), jv("10")), PS::Expr(leaf("a[0]"))]), |_| 10),
+        ("assign-index-index", blk(vec![PS::Let(false, "a", arr()), PS::AssignIndex(leaf("a"), jv("0"), i()), PS::Expr(leaf("a[0]"))]), |i| i),
+        ("assign-index-array", blk(vec![PS::Let(false, "a", arr()), PS::AssignIndex(jv("a"), leaf("0"), i()), PS::Expr(leaf("a[0]"))]), |i| i),
+        ("user-index-compound-rhs", blk(vec![PS::Let(false, "g", leaf("Gd([1, 2, 3])")), PS::CompoundIndex(leaf("g"), leaf("0"), "+=", jv("10")), PS::Expr(leaf("g[0]"))]), |_| 11),
+        ("user-index-compound-index", blk(vec![PS::Let(false, "g", leaf("Gd([1, 2, 3])")), PS::CompoundIndex(leaf("g"), jv("0"), "+=", i()), PS::Expr(leaf("g[0]"))]), |i| 1 + i),
+        ("user-index-compound-object", blk(vec![PS::Let(false, "g", leaf("Gd([1, 2, 3])")), PS::CompoundIndex(jv("g"), leaf("0"), "*=", i()), PS::Expr(leaf("g[0]"))]), |i| i),
+        ("user-index-assign-rhs", blk(vec![PS::Let(false, "g", leaf("Gd([1, 2, 3])")), PS::AssignIndex(leaf("g"), leaf("1"), jv("10")), PS::Expr(leaf("g[1]"))]), |_| 10),
+        ("user-index-assign-index", blk(vec![PS::Let(false, "g", leaf("Gd([1, 2, 3])")), PS::AssignIndex(leaf("g"), jv("1"), i()), PS::Expr(leaf("g[1]"))]), |i| i),
+        ("compound-field-rhs", blk(vec![PS::Let(false, "p", leaf("Pq(1, nil, 2)")), PS::CompoundField(leaf("p"), "b", "+=", jv("10")), PS::Expr(leaf("p.b"))]), |_| 12),
+        ("compound-field-object", blk(vec![PS::Let(false, "p", leaf("Pq(1, nil, 2)")), PS::CompoundField(jv("p"), "b", "+=", i()), PS::Expr(leaf("p.b"))]), |i| 2 + i),
+        ("assign-field-rhs", blk(vec![PS::Let(false, "p", leaf("Pq(1, nil, 2)")), PS::AssignField(leaf("p"), "b", jv("10")), PS::Expr(leaf("p.b"))]), |_| 10),
+        ("assign-field-object", blk(vec![PS::Let(false, "p", leaf("Pq(1, nil, 2)")), PS::AssignField(jv("p"), "b", i()), PS::Expr(leaf("p.b"))]), |i| i),
+        ("assign-void-field-object", blk(vec![PS::Let(false, "p", leaf("Pq(1, nil, 2)")), PS::AssignField(jv("p"), "z", nil()), PS::Expr(leaf("p.b"))]), |_| 2),
+        ("push-argument", blk(vec![PS::Let(false, "a", leaf("[1]")), PS::Expr(PX::Seq(false, "{0}.push({1})", vec![leaf("a"), jv("10")])), PS::Expr(leaf("a[1]"))]), |_| 10),
+        // ---- loop heads inside the loop: the jump belongs to the ENCLOSING loop
+        ("inner-while-condition", blk(vec![PS::Let(true, "w", leaf("0")), PS::While(jv("w < 1"), vec![PS::Compound("w", "+=", leaf("1"))]), PS::Expr(leaf("w"))]), |_| 1),
+        ("inner-for-iterable", blk(vec![PS::Let(true, "s", leaf("0")), PS::For("q", jv("[5, 6]"), vec![PS::Compound("s", "+=", leaf("q"))]), PS::Expr(leaf("s"))]), |_| 11),
+        // ---- an inner loop with its own jump, and the same inside a lambda (own frame)
+        ("inner-loop-own-jump", seq("({0} + {1})", vec![jv("1"), inner()]), |_| 15),
+        ("loop-inside-lambda", seq("({0} + {1}())", vec![jv("1"), PX::Fn(bx(inner()))]), |_| 15),
+    ];
+    v.shrink_to_fit();
+    v
+}
+
+pub struct PendingCase {
+    pub tpl: Tpl,
+    /// `pending …` request of the Lean model
+    pub request: String,
+}
+
+/// the loop (and its iterations 1..=4) around `body`
+fn pending_program(name: &str, e: &PX, contrib: fn(i64) -> i64, lp: usize, brk: bool, operand_placement: bool, in_fn: bool) -> PendingCase {
+    let j = JumpSpec { cond: if brk { "i == 3" } else { "i == 2" }, brk };
+    let body: Vec<PS> = if operand_placement {
+        vec![PS::Assign("acc", seq("({0} + ({1} * {2}))", vec![leaf("acc"), leaf("i"), e.clone()]))]
+    } else {
+        vec![PS::Let(false, "v", e.clone()), PS::Assign("acc", leaf("(acc + (i * v))"))]
+    };
+    let lp_stmts: Vec<PS> = match lp {
+        0 => {
+            let mut b = vec![PS::Compound("i", "+=", leaf("1"))];
+            b.extend(body);
+            vec![PS::Let(true, "i", leaf("0")), PS::While(leaf("(i < 4)"), b)]
+        }
+        1 => vec![PS::For("i", leaf("[1, 2, 3, 4]"), body)],
+        _ => {
+            let mut b = vec![PS::Let(false, "i", leaf("(k + 1)"))];
+            b.extend(body);
+            vec![PS::For("k", leaf("4"), b)]
+        }
+    };
+    let mut inner = lp_stmts;
+    inner.push(PS::Expr(leaf("acc")));
+    let main: Vec<PS> = vec![
+        PS::Let(true, "acc", leaf("0")),
+        PS::Let(false, "r", seq("({0} + {1})", vec![leaf("100"), PX::Block(true, inner)])),
+    ];
+    let iters: Vec<i64> = if brk { vec![1, 2] } else { vec![1, 3, 4] };
+    let total: i64 = 100 + iters.iter().map(|i| i * contrib(*i)).sum::<i64>();
+    let stmts: String = main.iter().map(|s| ps_src(s, &j, if in_fn { 1 } else { 0 })).collect();
+    let src = if in_fn {
+        format!("{PENDING_DECLS}fn run() -> int {{\n{stmts}  r\n}}\nprintln(run())\nprintln(\"end\")\n")
+    } else {
+        format!("{PENDING_DECLS}{stmts}println(r)\nprintln(\"end\")\n")
+    };
+    let request = format!("pending ( prog {} )", main.iter().map(|s| ps_sx(s, &j)).collect::<Vec<_>>().join(" "));
+    let request = request.split_whitespace().collect::<Vec<_>>().join(" ");
+    let lpn = ["while", "for-array", "for-range"][lp];
+    let tpl = tpl(
+        format!("pending {name} / {lpn} / {} / {} / {}", if brk { "break" } else { "continue" }, if operand_placement { "operand" } else { "statement" }, if in_fn { "function" } else { "main" }),
+        "pending-jump",
+        &["C01", "C02"],
+        src,
+        Expect::Out(format!("{total}\nend\n")),
+    );
+    PendingCase { tpl, request }
+}
+
+pub fn pending_cases(quick: bool) -> Vec<PendingCase> {
+    let mut v = vec![];
+    for (ci, (name, e, contrib)) in pending_contexts().into_iter().enumerate() {
+        for lp in 0..3 {
+            for brk in [false, true] {
+                for (pi, operand) in [true, false].into_iter().enumerate() {
+                    // quick: every context under every loop kind and both jumps; the placement and main/function alternate
+                    if quick && (ci + lp + brk as usize + pi) % 2 == 1 {
+                        continue;
+                    }
+                    let in_fn = (ci + lp + pi) % 3 == 0;
+                    v.push(pending_program(name, &e, contrib, lp, brk, operand, in_fn));
+                }
+            }
+        }
+    }
+    v
+}
+
+/// per source line of a `break`/`continue`: the number of `Pop`s emitted for it (instructions carry the line of the
+/// statement that emitted them; the jump statements of these programs stand on lines of their own).  Lines in source
+/// order; a line compiled several times must agree with itself.
+pub fn real_jump_pops(src: &str, files: &[(String, String)]) -> Result<Vec<usize>, String> {
+    abra_core::verif_asm::start_optimize_trace();
+    let r = std::panic::catch_unwind(std::panic::AssertUnwindSafe(|| abra_core::compile_bytecode("main.abra", provider(src, files))));
+    let tr = abra_core::verif_asm::take_optimize_trace_both();
+    match r {
+        Ok(Ok(_)) => {}
+        Ok(Err(e)) => return Err(format!("rejected: {}", e.to_string().replace('\n', " "))),
+        Err(p) => return Err(format!("compiler panic: {}", panic_msg(p).replace('\n', " "))),
+    }
+    let lines = tr.into_iter().next().ok_or("no trace")?;
+    // `I <file_id> <lineno> <func_id> <Debug>` / `L <label>`; the main file is the one the `<main>` code belongs to
+    let parsed: Vec<Option<(u32, usize, String)>> = lines
+        .iter()
+        .map(|(dbg, disp)| {
+            let mut it = dbg.splitn(5, ' ');
+            if it.next() != Some("I") {
+                return None;
+            }
+            let f: u32 = it.next()?.parse().ok()?;
+            let l: usize = it.next()?.parse().ok()?;
+            Some((f, l, disp.trim().to_string()))
+        })
+        .collect();
+    let jump_lines: Vec<usize> = src.lines().enumerate().filter(|(_, t)| matches!(t.trim(), "break" | "continue")).map(|(k, _)| k + 1).collect();
+    // the file id of main.abra: the file of the last instruction (`stop` of <main> is emitted … anywhere); take the id
+    // whose instructions include a `stop`
+    let main_file = parsed.iter().flatten().find(|(_, _, d)| d == "stop").map(|(f, _, _)| *f).ok_or("no stop instruction")?;
+    let mut out = vec![];
+    for jl in jump_lines {
+        // groups of consecutive instructions of that line ending in a jump
+        let mut counts: Vec<usize> = vec![];
+        let mut k = 0;
+        while k < parsed.len() {
+            if let Some((f, l, d)) = &parsed[k] {
+                if *f == main_file && *l == jl && (d.starts_with("jump while_") || d.starts_with("jump for_")) {
+                    let mut n = 0;
+                    let mut m = k;
+                    while m > 0 {
+                        match &parsed[m - 1] {
+                            Some((f2, l2, d2)) if *f2 == main_file && *l2 == jl && d2 == "pop" => {
+                                n += 1;
+                                m -= 1;
+                            }
+                            _ => break,
+                        }
+                    }
+                    counts.push(n);
+                }
+            }
+            k += 1;
+        }
+        if counts.is_empty() {
+            return Err(format!("no jump instruction for the break/continue on line {jl}"));
+        }
+        if counts.iter().any(|c| *c != counts[0]) {
+            return Err(format!("the break/continue on line {jl} is compiled with different numbers of Pops: {counts:?}"));
+        }
+        out.push(counts[0]);
+    }
+    Ok(out)
 }
